@@ -194,8 +194,12 @@ Section Steps.
     set (w0 := if is_transfer (e_verb e) then w else set_sess w (set_rest (w_s w) 0)).
     assert (L0 : login_of w0 = login_of w) by (unfold w0; destruct (is_transfer (e_verb e)); reflexivity).
     assert (FIN : forall (w1 : world) (o : out) (keep : bool),
-               login_of (fst ((if keep then w1 else set_sess w1 (end_sess (w_s w1))), o)) = login_of w1)
-      by (intros w1 o [|]; reflexivity).
+               login_of (fst ((if keep
+                               then (if is_transfer (e_verb e) then set_sess w1 (set_rest (w_s w1) 0) else w1)
+                               else set_sess (if is_transfer (e_verb e) then set_sess w1 (set_rest (w_s w1) 0) else w1)
+                                             (end_sess (w_s (if is_transfer (e_verb e) then set_sess w1 (set_rest (w_s w1) 0) else w1)))),
+                              o)) = login_of w1)
+      by (intros w1 o [|]; destruct (is_transfer (e_verb e)); reflexivity).
     unfold login_entries_ok in LE.
     destruct (handler_of t "user") as [[[|] udl]|] eqn:HU; try discriminate.
     destruct (handler_of t "pass_") as [[[|[fields wait fc| | | |] [|]] pdl]|] eqn:HP; try discriminate.
@@ -212,7 +216,7 @@ Section Steps.
       rewrite HU. cbn [run_decos].
       pose proof (body_user users (handler users t 2) (e_arg e) (e_data e) false w0) as B.
       destruct (body users (handler users t 2) "user" (e_arg e) (e_data e) false w0) as [[w1 o] keep].
-      rewrite FIN. exact B. }
+      cbv zeta. rewrite FIN. exact B. }
     destruct (String.eqb h "pass_") eqn:E2.
     { apply String.eqb_eq in E2. subst h.
       change (handler users t 3 "pass_" (e_arg e) (e_data e) false w0)
@@ -226,14 +230,14 @@ Section Steps.
       - destruct (body_pass users (handler users t 2) (e_arg e) (e_data e) false w0) as [B|[B _]];
           [|congruence].
         destruct (body users (handler users t 2) "pass_" (e_arg e) (e_data e) false w0) as [[w1 o] keep].
-        rewrite FIN. right; right. split; [exact V|]. rewrite <- L0. exact B.
-      - left. cbn. exact L0. }
+        cbv zeta. rewrite FIN. right; right. split; [exact V|]. rewrite <- L0. exact B.
+      - left. cbn. destruct (is_transfer (e_verb e)); exact L0. }
     left.
     assert (NL : ~ In h login_names).
     { cbn. intros [H|[H|[]]]; subst h; cbn in E1, E2; discriminate. }
     pose proof (handler_same_login users t 3 h (e_arg e) (e_data e) false w0 NL) as [SU SLg].
     destruct (handler users t 3 h (e_arg e) (e_data e) false w0) as [[w1 o] keep].
-    rewrite FIN. unfold res_world in SU, SLg. cbn [fst] in SU, SLg.
+    cbv zeta. rewrite FIN. unfold res_world in SU, SLg. cbn [fst] in SU, SLg.
     unfold login_of. rewrite SU, SLg. exact L0.
   Qed.
 
